@@ -165,7 +165,7 @@ add("C09", "E1",
     "(leading blanks/tab, spacing after the mnemonic, 4 separator spacings, trailing blanks, trailing "
     "'#'/'//' comment with and without a separating blank) and parsed by the real parser; arity 0-1 "
     "complete, arity 2 all ordered pairs of a reduced pool, arity 3-4 covering family; plus all 2800 "
-    "files of <= 4 lines over 7 line kinds (line numbers, verbatim text, exactly one classification).",
+    "files of <= 4 lines over 10 line kinds (line numbers, verbatim text, exactly one classification).",
     "Trusted: mc/ref/asm.py (AT&T operand grammar as rendered). D7 (displacement-only memory "
     "operand) is a listed known finding. The empty operand '()' is outside the domain.",
     "DESIGN.md §4 C09/C10")
@@ -177,7 +177,7 @@ add("C10", "E1",
     "'#' in decimal, hex, negative, floating point with/without exponent, all condition codes, labels "
     "incl. register-like and condition-like names, memory with base (incl. sp), immediate offset, "
     "register index with lsl/sxtw/uxtw #n (scale 2^n), pre- and post-index; memory operand last; "
-    "mnemonics with '.cond' suffix; files over 7 line kinds.",
+    "mnemonics with '.cond' suffix; files over 10 line kinds.",
     "Trusted: mc/ref/asm.py. D24 (condition code followed by a blank parsed as label) is a listed "
     "known finding.",
     "DESIGN.md §4 C09/C10")
